@@ -517,6 +517,12 @@ func (s *fsm13) transitionAfterACK(result ACKResult, peerRetransmit bool) receiv
 
 		return receivedFlightTransition{state: StateWaiting}
 	}
+	if peerRetransmit && !s.retransmit && len(s.flights) != 0 {
+		// A flight that the timer never retransmits (HelloRetryRequest) is still sent
+		// again in direct response to the peer repeating its previous flight, otherwise
+		// a lost HelloRetryRequest can never be recovered.
+		return receivedFlightTransition{state: StateSending}
+	}
 	if result.Empty || len(result.Messages) != 0 || peerRetransmit {
 		return receivedFlightTransition{
 			state: handleRetransmitTimeout(s.retransmit, &s.retransmitInterval, s.cfg),
